@@ -303,7 +303,19 @@ def gen_script(r, name, nops, readers, reload_heavy=False):
 
     stored = []
     kstored = []
+    live = World()
+    _add_op = s.add_op
+
+    def tracked_add_op(op):
+        _add_op(op)
+        live.apply(op)
+    s.add_op = tracked_add_op
     for i in range(nops):
+        # removals mostly target records that are in the table right now
+        if live.pfx[-1] and r.random() < 0.7:
+            stored = sorted(live.pfx[-1])
+        if live.keys[-1] and r.random() < 0.7:
+            kstored = sorted(live.keys[-1])
         x = r.random()
         if reload_heavy:
             x = x * 0.8 if x > 0.2 else 0.93 + x * 0.3
@@ -564,6 +576,76 @@ def minimise(exe, script, pred, max_tests=24):
     return s2.text()
 
 
+# ------------------------------------------------------------------------------------------
+# translator self-test: seeded lock defects must change the IR so that the checker rejects it
+# ------------------------------------------------------------------------------------------
+
+MUTANTS = [
+    ("missing-unlock", "rtrlib/pfx/trie/trie-pfx.c",
+     "\t\t\tif (pfx_table_find_elem(node->data, record, NULL)) {\n\t\t\t\tpthread_rwlock_unlock(&pfx_table->lock);\n",
+     "\t\t\tif (pfx_table_find_elem(node->data, record, NULL)) {\n", "pfx_table_add"),
+    ("access-moved-before-lock", "rtrlib/pfx/trie/trie-pfx.c",
+     "\tpthread_rwlock_wrlock(&(pfx_table->lock));\n\tstruct trie_node *root = pfx_table_get_root(pfx_table, record->prefix.ver);\n\n\tunsigned int lvl = 0; // tree depth",
+     "\tstruct trie_node *root = pfx_table_get_root(pfx_table, record->prefix.ver);\n\tpthread_rwlock_wrlock(&(pfx_table->lock));\n\n\tunsigned int lvl = 0; // tree depth",
+     "pfx_table_remove"),
+    ("swap-takes-one-lock", "rtrlib/pfx/trie/trie-pfx.c",
+     "\tpthread_rwlock_wrlock(&(a->lock));\n\tpthread_rwlock_wrlock(&(b->lock));\n", "\tpthread_rwlock_wrlock(&(a->lock));\n",
+     "pfx_table_swap"),
+    ("list-head-read-before-lock", "rtrlib/spki/hashtable/ht-spkitable.c",
+     "\tpthread_rwlock_rdlock(&spki_table->lock);\n\n\tcurrent_node = tommy_list_head(&spki_table->list);\n\twhile (current_node) {\n\t\tstruct key_entry *current_entry;",
+     "\tcurrent_node = tommy_list_head(&spki_table->list);\n\tpthread_rwlock_rdlock(&spki_table->lock);\n\twhile (current_node) {\n\t\tstruct key_entry *current_entry;",
+     "spki_table_search_by_ski"),
+    ("write-lock-downgraded", "rtrlib/spki/hashtable/ht-spkitable.c",
+     "\tpthread_rwlock_wrlock(&spki_table->lock);\n\n\tif (!tommy_hashlin_search(&spki_table->hashtable, spki_table->cmp_fp, &entry, hash)) {",
+     "\tpthread_rwlock_rdlock(&spki_table->lock);\n\n\tif (!tommy_hashlin_search(&spki_table->hashtable, spki_table->cmp_fp, &entry, hash)) {",
+     "spki_table_remove_entry"),
+]
+
+
+def mutation_selftest():
+    """returns (results, problems): results = {mutant: 'detected'|'pattern not found'|...}"""
+    base = os.path.join(vlib.BUILD, "locks_mut")
+    tree = os.path.join(base, "tree")
+    shutil.rmtree(base, ignore_errors=True)
+    os.makedirs(tree)
+    for sub in ("rtrlib", "third-party"):
+        shutil.copytree(os.path.join(vlib.REPO, sub), os.path.join(tree, sub),
+                        ignore=shutil.ignore_patterns("*.o", "*.a", "*.so"))
+    results, problems = {}, []
+    for name, rel, old, new, fn in MUTANTS:
+        path = os.path.join(tree, rel)
+        orig = open(os.path.join(vlib.REPO, rel)).read()
+        if orig.count(old) != 1:
+            results[name] = "pattern not found (source changed; mutant skipped)"
+            continue
+        with open(path, "w") as f:
+            f.write(orig.replace(old, new))
+        lean = os.path.join(base, "Mut_%s.lean" % re.sub(r"\W", "_", name))
+        try:
+            gen_locks.generate(tree, lean, "Rtr.Generated.LocksMut")
+        except SystemExit as ex:
+            results[name] = "translator failed: %s" % str(ex)[:200]
+            problems.append(name)
+            with open(path, "w") as f:
+                f.write(orig)
+            continue
+        with open(path, "w") as f:
+            f.write(orig)
+        with open(lean, "a") as f:
+            f.write("\nopen Rtr.Locks Rtr.Generated.LocksMut in\n#eval IO.println (String.intercalate \"\\n\" "
+                    "(publicFns.filterMap fun i => (diagnose true fns i).map "
+                    "(fun m => \"MUT \" ++ ((fns[i]?.map (·.name)).getD \"?\") ++ \" :: \" ++ m)))\n")
+        with vlib.Lock("lake"):
+            r = vlib.sh(["lake", "env", "lean", lean], cwd=vlib.LEAN)
+        flagged = re.findall(r"^MUT (\S+) :: (.*)$", r.stdout, re.M)
+        if any(f[0] == fn for f in flagged):
+            results[name] = "detected: " + [f[1] for f in flagged if f[0] == fn][0][:160]
+        else:
+            results[name] = "NOT detected (flagged: %s) %s" % ([f[0] for f in flagged], r.stdout[-300:].replace("\n", " "))
+            problems.append(name)
+    return results, problems
+
+
 def run(pid, tier):
     t0 = time.time()
     rep = vlib.Report(pid, tier)
@@ -676,6 +758,11 @@ def run(pid, tier):
     if ir_table:
         rep.sample({"ir_per_function": {k: v[1] if v[1] != "ok" else "ok" for k, v in list(ir_table.items())[:40]}})
 
+    mut_results, mut_problems = ({}, [])
+    if pid == "C16":
+        mut_results, mut_problems = mutation_selftest()
+        rep.cov["distribution"]["translator_selftest"] = mut_results
+
     # 4. verdicts
     seen_kinds = set()
     for kind, script, detail, tsan, err in failures:
@@ -694,10 +781,14 @@ def run(pid, tier):
                   "crash": "the implementation aborted under concurrent use (assertion / signal)",
                   "lin": "every read returns the answer for the table contents at some instant between call and return",
                   "mono": "no reader observes the new set and afterwards the old one"}[kind]
-        rep.violation(kind, "# property %s, clause: %s\n# %s\n%s# replay: build/h_locks_*/locks stress <this file>  (TSAN_OPTIONS=log_path=...)\n"
-                      "%s\n# --- ThreadSanitizer / stderr excerpt ---\n%s\n%s\n" % (
-                          pid, clause, detail, ir_text, text, "\n".join("# " + l for l in tsan.splitlines()[:80]),
-                          "\n".join("# " + l for l in err.splitlines()[:30])))
+        full = rep.replay_path(kind) + ".full.ops"
+        with open(full, "w") as f:
+            f.write(script.text())
+        rep.violation(kind, "# property %s, clause: %s\n# %s\n%s# replay (schedule dependent, repeat if needed): TSAN_OPTIONS=log_path=/tmp/tsan "
+                      "build/h_locks_*/locks stress <this file>\n# unminimised script: %s\n# --- stderr of the implementation ---\n%s\n"
+                      "%s\n# --- ThreadSanitizer excerpt ---\n%s\n" % (
+                          pid, clause, detail, ir_text, full, "\n".join("# " + l for l in err.splitlines()[:12]), text,
+                          "\n".join("# " + l for l in tsan.splitlines()[:70])))
     corr = [f for f in failures if f[0] == "corr"]
     real = [f for f in failures if f[0] != "corr"]
     if pid == "C06":
@@ -725,6 +816,9 @@ def run(pid, tier):
     elif ir_bad and proved and not real:
         rep.build_log = ir_text
         vlib.proof_failure(rep, "lockdriver reports IR violations although the theorems built (checker/driver drift)")
+    if mut_problems:
+        rep.build_log = "\n".join("%s: %s" % kv for kv in mut_results.items())
+        vlib.proof_failure(rep, "translator self-test: seeded lock defects not detected by gen_locks.py + wellLocked: %s" % mut_problems)
     rep.cov["wall_check_s"] = round(time.time() - t0, 1)
     return rep.finish()
 
